@@ -12,6 +12,7 @@
 package c04
 
 import (
+	"context"
 	"errors"
 	"fmt"
 	"sort"
@@ -70,11 +71,41 @@ type block struct {
 type item struct {
 	kind  string // write | read | child | update | delete
 	child *block
+	via   int // how the block's handle is derived before the statement (see derive)
 }
+
+// derive returns a handle derived from the block's transaction handle: whatever the
+// caller derives inside a block must stay inside that transaction.
+func derive(tx *gorm.DB, via int) *gorm.DB {
+	switch via {
+	case 1:
+		return tx.Session(&gorm.Session{})
+	case 2:
+		return tx.Session(&gorm.Session{PrepareStmt: true})
+	case 3:
+		return tx.WithContext(context.Background())
+	case 4:
+		return tx.Session(&gorm.Session{NewDB: true})
+	case 5:
+		return tx.Debug()
+	case 6:
+		return tx.Session(&gorm.Session{PrepareStmt: true, SkipHooks: true}).Session(&gorm.Session{})
+	}
+	return tx
+}
+
+var viaNames = []string{"", "/Session", "/Session{PrepareStmt}", "/WithContext", "/Session{NewDB}", "/Debug", "/Session{PrepareStmt}.Session"}
 
 type gen struct {
 	r      *core.Rand
 	blocks int
+}
+
+func (g *gen) via() int {
+	if g.r.Bool() {
+		return 0
+	}
+	return g.r.Intn(len(viaNames))
 }
 
 func (g *gen) block(depth int) *block {
@@ -91,11 +122,11 @@ func (g *gen) block(depth int) *block {
 	for i := 0; i < n; i++ {
 		switch k := g.r.Intn(8); {
 		case k < 3:
-			b.items = append(b.items, item{kind: "write"})
+			b.items = append(b.items, item{kind: "write", via: g.via()})
 		case k == 3:
-			b.items = append(b.items, item{kind: "read"})
+			b.items = append(b.items, item{kind: "read", via: g.via()})
 		case k == 4:
-			b.items = append(b.items, item{kind: core.Pick(g.r, []string{"update", "delete"})})
+			b.items = append(b.items, item{kind: core.Pick(g.r, []string{"update", "delete"}), via: g.via()})
 		default:
 			if depth > 1 && g.blocks < 12 {
 				b.items = append(b.items, item{kind: "child", child: g.block(depth - 1)})
@@ -113,7 +144,7 @@ func (b *block) String() string {
 		if it.kind == "child" {
 			parts = append(parts, it.child.String())
 		} else {
-			parts = append(parts, it.kind)
+			parts = append(parts, it.kind+viaNames[it.via])
 		}
 	}
 	out := []string{"nil", "ERR", "PANIC"}[b.outcome]
@@ -261,15 +292,15 @@ func (w *world) runBlock(db *gorm.DB, b *block, nested bool) (err error) {
 		for _, it := range b.items {
 			switch it.kind {
 			case "write":
-				if e := w.write(tx); e != nil {
+				if e := w.write(derive(tx, it.via)); e != nil {
 					return e
 				}
 			case "update", "delete":
-				if e := w.mutate(tx, it.kind); e != nil {
+				if e := w.mutate(derive(tx, it.via), it.kind); e != nil {
 					return e
 				}
 			case "read":
-				if e := w.read(tx); e != nil {
+				if e := w.read(derive(tx, it.via)); e != nil {
 					return e
 				}
 			case "child":
@@ -315,6 +346,7 @@ func recover2() bool { return true }
 type manualStep struct {
 	kind string // write read save rollto commit rollback
 	name string
+	via  int
 }
 
 func genManual(r *core.Rand) []manualStep {
@@ -324,9 +356,9 @@ func genManual(r *core.Rand) []manualStep {
 	for i := 0; i < n; i++ {
 		switch k := r.Intn(8); {
 		case k < 3:
-			steps = append(steps, manualStep{kind: "write"})
+			steps = append(steps, manualStep{kind: "write", via: r.Intn(len(viaNames)) * r.Intn(2)})
 		case k == 3:
-			steps = append(steps, manualStep{kind: "read"})
+			steps = append(steps, manualStep{kind: "read", via: r.Intn(len(viaNames)) * r.Intn(2)})
 		case k < 6:
 			name := fmt.Sprintf("s%d", len(saves)+1)
 			saves = append(saves, name)
@@ -360,11 +392,11 @@ func (w *world) runManual(steps []manualStep) (finalErr error) {
 	for _, s := range steps {
 		switch s.kind {
 		case "write":
-			if e := w.write(tx); e != nil {
+			if e := w.write(derive(tx, s.via)); e != nil {
 				return abort(e)
 			}
 		case "read":
-			if e := w.read(tx); e != nil {
+			if e := w.read(derive(tx, s.via)); e != nil {
 				return abort(e)
 			}
 		case "save":
@@ -448,7 +480,7 @@ func (p program) String() string {
 	}
 	parts := make([]string, len(p.manual))
 	for i, s := range p.manual {
-		parts[i] = s.kind
+		parts[i] = s.kind + viaNames[s.via]
 		if s.name != "" {
 			parts[i] += "(" + s.name + ")"
 		}
